@@ -644,7 +644,7 @@ struct Scratch {
 
 thread_local! {
     static SCRATCH: std::cell::RefCell<Scratch> = {
-        let dir = vkit::report::verif_root().join("target").join("tmp");
+        let dir = vkit::report::scratch_dir();
         let _ = std::fs::create_dir_all(&dir);
         let who = match rayon::current_thread_index() {
             Some(i) => format!("w{i}"),
@@ -834,7 +834,7 @@ pub fn run(report: &mut Report, tier: &str) {
         }
     }
     // leave no scratch files behind
-    let dir = vkit::report::verif_root().join("target").join("tmp");
+    let dir = vkit::report::scratch_dir();
     let prefix = format!("c14ndl-{}-", std::process::id());
     if let Ok(rd) = std::fs::read_dir(&dir) {
         for e in rd.flatten() {
